@@ -5,7 +5,7 @@
    random_sample lies in [0,1)). *)
 From Coq Require Import ZArith QArith List Arith Bool Lia Permutation.
 From BCT Require Import Base.Mat Base.ListX Model.Generators Proofs.GeneratorsBase Proofs.Generators
-  Proofs.GeneratorsRing Proofs.GeneratorsDeg.
+  Proofs.GeneratorsRing Proofs.GeneratorsDeg Proofs.GeneratorsTemplate.
 Import ListNotations.
 Open Scope Z_scope.
 
@@ -104,6 +104,25 @@ Theorem C20_even_clusters_only : Z.of_nat k < nc -> forall i j, R i j = CIJp i j
 Proof. destruct (even_spec n k sz rp R Hrun) as (_ & H2 & _). exact H2. Qed.
 End EvenStatement.
 
+(* the hierarchical template both generators build iteratively, in closed form: off the diagonal it is
+   1 + the number of block sizes 2^1..2^(mx-1) at which i and j share a block; consequently the cluster mask of
+   makeevenCIJ and the zero-decay cells of makefractalCIJ are exactly the diagonal blocks of size 2^sz_cl *)
+Theorem C20_template_levels : forall mx s i j,
+  (1 <= s <= mx)%nat -> (i < 2 ^ mx)%nat -> (j < 2 ^ mx)%nat -> i <> j ->
+  template mx i j = 1 + cntlev (mx - 1) i j /\
+  (Z.of_nat mx - (Z.of_nat s - 1) <= template mx i j <-> (i / 2 ^ s = j / 2 ^ s)%nat).
+Proof. exact template_levels. Qed.
+
+Theorem C20_even_clusters_blocks : forall mx s i j,
+  (1 <= s <= mx)%nat -> (i < 2 ^ mx)%nat -> (j < 2 ^ mx)%nat -> i <> j ->
+  (even_clusters mx (Z.of_nat s) i j = 1 <-> (i / 2 ^ s = j / 2 ^ s)%nat).
+Proof. exact even_clusters_blocks. Qed.
+
+Theorem C20_fractal_clusters_blocks : forall mx s i j,
+  (1 <= s <= mx)%nat -> (i < 2 ^ mx)%nat -> (j < 2 ^ mx)%nat -> i <> j ->
+  (fractal_ee mx (Z.of_nat s) i j = 0 <-> (i / 2 ^ s = j / 2 ^ s)%nat).
+Proof. exact fractal_ee_blocks. Qed.
+
 (* makerandCIJdegreesfixed: loop invariant of the stub matching with repair, for arbitrary stub arrays *)
 Theorem C20_degfixed_invariant : forall n k e0 e1i,
   (forall t, (t < k)%nat -> (e0 t < n)%nat) ->
@@ -153,11 +172,15 @@ Proof. eexists. split; [reflexivity|]. vm_compute. reflexivity. Qed.
 
 Print Assumptions C20_makerand_dir_count.
 Print Assumptions C20_makerand_und_sym_count.
+Print Assumptions C20_upper_cells.
 Print Assumptions C20_ringlattice_bands.
 Print Assumptions C20_ringlattice_feasible_returns.
 Print Assumptions C20_toeplitz_exact_K.
 Print Assumptions C20_fractal_count.
 Print Assumptions C20_even_count.
 Print Assumptions C20_even_clusters_only.
+Print Assumptions C20_template_levels.
+Print Assumptions C20_even_clusters_blocks.
+Print Assumptions C20_fractal_clusters_blocks.
 Print Assumptions C20_degfixed_invariant.
 Print Assumptions C20_degfixed_rowcol.
